@@ -114,6 +114,22 @@ def build_many(pairs, jobs=16):
     return out
 
 
+def degraded_caps(exes):
+    """private members of the library the harness could not find in this tree (renamed / removed): union over the binaries;
+    exported to the workers through VERIF_DEGRADED"""
+    missing = set()
+    for exe in list(exes)[:14]:
+        try:
+            o = subprocess.run([exe, 'caps'], capture_output=True, text=True, timeout=60).stdout
+            missing |= set(o.replace('missing:', '').split())
+        except Exception:
+            pass
+    os.environ['VERIF_DEGRADED'] = ','.join(sorted(missing))
+    if missing:
+        print(f'NOTE: private members not found in this tree, state description degraded (fewer states told apart, nothing misjudged): {sorted(missing)}')
+    return missing
+
+
 if __name__ == '__main__':
     if sys.argv[1:2] == ['--drop']:      # remove the cache directory of the tree named by VERIF_REPO (scratch copies)
         shutil.rmtree(os.path.join(BUILD, tree_hash()), ignore_errors=True)
